@@ -584,6 +584,11 @@ def f_wrong_root(rng, root, info):
     return 'ROOT not an element of the schema'
 
 
+def f_unknown_root_ns(rng, root, info):
+    root.ns = ONS if root.ns != ONS else ''
+    return 'ROOT in a namespace unknown to the schema'
+
+
 def f_assert(rng, root, info):
     n = _pick(rng, root.find_all('price'))
     if n is None:
@@ -597,6 +602,7 @@ FAULTS: list[Callable] = [
     f_missing_attr, f_unknown_attr, f_wrong_fixed, f_xsi_type_unknown, f_xsi_type_not_derived,
     f_xsi_type_abstract, f_abstract_element, f_nil_not_nillable, f_nil_with_content, f_bad_nil_value,
     f_dup_key, f_dangling_keyref, f_dup_unique, f_dup_id, f_dangling_idref, f_wrong_root, f_assert,
+    f_unknown_root_ns,
 ]
 FAULT_NAMES = sorted({f.__name__[2:] for f in FAULTS})
 
